@@ -377,6 +377,21 @@ pub fn run(args: &Args, r: &mut Report) {
             r.violation(&rule, &sig, detail, args.case_replay(i));
         }
     }
+    // ---- a server that has not been configured yet answers 500 with an empty body (no panic)
+    if !miri && args.only_case.is_none() {
+        let server = TMutex::new(OmahaServerBuilder::default().build().unwrap());
+        let req = hyper::Request::post("/").body(hyper::Body::from(br#"{"request":{"protocol":"3.0","app":[{"appid":"x","version":"1.0.0.0","updatecheck":{}}]}}"#.to_vec())).unwrap();
+        r.hit("c17-unconfigured-server-answers-500");
+        match guard(|| block_on(handle_request(req, &server))) {
+            Ok(Ok(resp)) => {
+                if resp.status().as_u16() != 500 {
+                    r.violation("c17-unconfigured-server-answers-500", "c17-unconfigured-server-answers-500", format!("status {}", resp.status()), json!({}));
+                }
+            }
+            Ok(Err(e)) => r.violation("c17-unconfigured-server-answers-500", "c17-unconfigured-server-answers-500 error", e.to_string(), json!({})),
+            Err(p) => r.violation("c17-no-panic", &p.sig(), format!("unconfigured server panicked: {}", p.msg), json!({})),
+        }
+    }
     // ---- (2) the state machine against the mock
     let nsm = if miri { 1 } else { args.budget(1_500, 16_000) };
     for j in 0..nsm {
